@@ -116,8 +116,11 @@ func Evaluate(s sink.Sink, prop string, r *scen.Run, completed, sample bool) {
 			problems = append(problems, fmt.Sprintf("honest update request never answered (dropped by the receiving client): %s", strings.Join(un, "; ")))
 		}
 	}
+	if r.Stalled != "" && len(problems) == 0 {
+		problems = append(problems, "honest run stalled: "+r.Stalled)
+	}
 	switch {
-	case len(problems) > 0 && strings.Contains(problems[0], "never answered"):
+	case len(problems) > 0 && (strings.Contains(problems[0], "never answered") || strings.Contains(problems[0], "stalled")):
 		// reported below
 	case r.TimedOut:
 		s.Inconclusive("a request timed out")
@@ -188,6 +191,8 @@ func Evaluate(s sink.Sink, prop string, r *scen.Run, completed, sample bool) {
 		switch {
 		case strings.Contains(problems[0], "never answered"):
 			class = "honest-request-never-answered"
+		case strings.Contains(problems[0], "stalled"):
+			class = "honest-run-stalled"
 		case strings.Contains(problems[0], "refused"):
 			class = "honest-call-refused"
 		case strings.Contains(problems[0], "funding took"):
